@@ -134,6 +134,43 @@ def _m_memo_call(interp, args, kw):
     return ent[1]
 
 
+class StepLimit(Exception):
+    """raised by bounded_call when the callee runs for too long (an unbounded loop)"""
+
+
+NATIVE_STEP_LIMIT = 400000      # line events
+SYMBOLIC_LOOP_CAP = 3000        # iterations of one while loop
+
+
+def bounded_call(f, *args):
+    """f(*args), giving up with StepLimit when it does not come back: natively after NATIVE_STEP_LIMIT traced
+    line events, symbolically when one while loop passes SYMBOLIC_LOOP_CAP iterations (recursion has its own
+    modelled limit: RecursionError)."""
+    import sys
+    count = [0]
+
+    def tracer(frame, event, arg):
+        count[0] += 1
+        if count[0] > NATIVE_STEP_LIMIT:
+            raise StepLimit("more than %d steps" % NATIVE_STEP_LIMIT)
+        return tracer
+    old = sys.gettrace()
+    sys.settrace(tracer)
+    try:
+        return f(*args)
+    finally:
+        sys.settrace(old)
+
+
+def _m_bounded_call(interp, args, kw):
+    old = (interp.loop_cap, interp.loop_cap_exc)
+    interp.loop_cap, interp.loop_cap_exc = SYMBOLIC_LOOP_CAP, StepLimit
+    try:
+        return interp.call(args[0], tuple(args[1:]), {})
+    finally:
+        interp.loop_cap, interp.loop_cap_exc = old
+
+
 EXPORTS = [and_, or_, not_, implies, eq, contains, count_of, chars_all_in, no_new_in_class,
            same_except, char_in, char_eq, lower_hex_to_upper]
 
@@ -144,3 +181,4 @@ def register(func_models):
     for f in EXPORTS:
         func_models[f] = wrap(f)
     func_models[memo_call] = _m_memo_call
+    func_models[bounded_call] = _m_bounded_call
